@@ -20,7 +20,7 @@ PROPS = {
         ],
     },
     "C17": {
-        "units": ["u2f"],
+        "units": ["u2f", "enc"],
         "kani_complete": [],
         "kani_bounded_quick": ["u2f_enc_quick"],
         "kani_bounded_thorough": ["u2f_enc", "u2f_wf"],
@@ -28,7 +28,7 @@ PROPS = {
         "not_covered": [
             "U2fApi::register / authenticate (async_trait methods, p256 signing, iterator chains): that the "
             "signatures verify and what their signing input is",
-            "response encoders (iterator chains): bounded Kani family K-U2F-ENC only (thorough tier)",
+            "response encoders: proved by unit enc over rule R23 (a byte chain is the concatenation of what its sources yield: a trusted model of into_iter / chain / collect); the bounded Kani family K-U2F-ENC checks the same layouts on the compiled crate",
             "key handles longer than 255 bytes (outside the property's quantifier)",
         ],
     },
@@ -126,7 +126,7 @@ PROPS = {
         "units": ["cer", "cli", "clt"], "kani_complete": [], "kani_bounded_quick": ["prf_salt"], "kani_bounded_thorough": [],
         "design_ref": "DESIGN.md section 5 / C09",
         "not_covered": [
-            "make_salt (iterator chain): the salt prefix is an assumed contract in the Verus unit; it is checked by the bounded Kani family K-PRF-SALT (inputs of 0, 1, 5 bytes) on the real source file",
+            "make_salt is proved (SHA-256 of 'WebAuthn PRF' || 0x00 || input) over rule R23's byte-chain model; the bounded Kani family K-PRF-SALT (inputs of 0, 1, 5 bytes) checks the same on the compiled source file",
             "get_ctap_extension / auth_prf_to_ctap2_input (iterator and collect chains over HashMaps with nested closures; a hand translation "
             "exceeds the resource limit): per-credential inputs without an allow list, empty / undecodable / unlisted credential keys at "
             "authentication are not decided. The registration side (make_ctap_extension, registration_prf_to_ctap2_input) is proved",
